@@ -1145,7 +1145,17 @@ func (v *c16Vx) emit(e Ev) {
 
 func (v *c16Vx) Build(n int) {
 	v.sc++
-	in := append([]vortex.Hash{}, v.L[:n]...)
+	// the leaves are a view into a larger buffer whose tail holds stale non-zero hashes (a reused pool): padding to the next
+	// power of two must not pick them up, and nothing behind the view may be written
+	buf := make([]vortex.Hash, 2*n+9)
+	for i := range buf {
+		for k := range buf[i] {
+			buf[i][k][0] = uint32(0x1234567 + 31*i + k)
+		}
+	}
+	copy(buf, v.L[:n])
+	tail := append([]vortex.Hash{}, buf[n:]...)
+	in := buf[:n]
 	e := Ev{"op": "Build", "n": n}
 	if m, p := c16try(func() { v.tree = vortex.BuildMerkleTree(in) }); p {
 		e["panic"] = m
@@ -1159,6 +1169,9 @@ func (v *c16Vx) Build(n int) {
 	intact := len(in) == n
 	for i := 0; intact && i < n; i++ {
 		intact = in[i] == v.L[i]
+	}
+	for i := 0; intact && i < len(tail); i++ {
+		intact = buf[n+i] == tail[i]
 	}
 	e["intact"] = intact
 	v.n, v.proof, v.made = n, nil, -1
